@@ -193,6 +193,10 @@ func (g G) Select(d int) string {
 
 // Stmt generates one statement of any kind.
 func (g G) Stmt(d int) string {
+	if g.n(16, "wrapped") == 15 {
+		// statements that carry a whole query inside them
+		return g.pick("wrap", "EXPLAIN ", "DESCRIBE ", "EXPLAIN ANALYZE ", "CREATE VIEW v AS ", "CREATE TABLE t2 AS ", "INSERT INTO logs ") + g.Select(d)
+	}
 	switch g.n(12, "stmt") {
 	case 0, 1, 2:
 		return g.Select(d)
